@@ -12,6 +12,8 @@ import (
 
 	"qeepverif/internal/bind"
 
+	"github.com/sahandsafizadeh/qeep/component/initializers"
+	"github.com/sahandsafizadeh/qeep/component/layers"
 	"github.com/sahandsafizadeh/qeep/component/layers/activations"
 	"github.com/sahandsafizadeh/qeep/component/losses"
 	"github.com/sahandsafizadeh/qeep/tensor"
@@ -71,12 +73,22 @@ type Menu struct {
 	Writes [][][]int `json:"writes"`
 }
 
-type Shared struct{ S [2]tensor.Tensor }
+type Shared struct {
+	S     [2]tensor.Tensor
+	Layer *layers.FC // a layer object shared by all goroutines
+	Soft  *activations.Softmax
+}
 
 func NewShared() *Shared {
 	s1, _ := bind.New([]int{2, 2}, []float64{1, 2, 3, 4}, true)
 	s2, _ := bind.New([]int{2, 2}, []float64{0.5, 1, 2, -1}, false)
-	return &Shared{S: [2]tensor.Tensor{s1, s2}}
+	fc, err := layers.NewFC(&layers.FCConfig{Inputs: 2, Outputs: 2, Initializers: map[string]layers.Initializer{
+		"Weight": initializers.NewFull(&initializers.FullConfig{Value: 0.5}), "Bias": initializers.NewFull(&initializers.FullConfig{Value: -0.25})}})
+	if err != nil {
+		panic(err)
+	}
+	soft, _ := activations.NewSoftmax(&activations.SoftmaxConfig{Dim: 1})
+	return &Shared{S: [2]tensor.Tensor{s1, s2}, Layer: fc, Soft: soft}
 }
 
 func resolve(sh *Shared, local []tensor.Tensor, slot [2]any) tensor.Tensor {
@@ -115,6 +127,26 @@ func Step(sh *Shared, local []tensor.Tensor, in Instr) (tensor.Tensor, error) {
 			return activations.NewRelu().Forward(a)
 		case "sigmoid":
 			return activations.NewSigmoid().Forward(a)
+		case "transpose":
+			return a.Transpose()
+		case "concat":
+			return tensor.Concat([]tensor.Tensor{a, b}, 0)
+		case "slice":
+			return a.Slice([]tensor.Range{{From: 0, To: 1}})
+		case "softmax":
+			return sh.Soft.Forward(a)
+		case "fc":
+			return sh.Layer.Forward(a)
+		case "bce":
+			fa, err := a.Flatten(0)
+			if err != nil {
+				return nil, err
+			}
+			fb, err := b.Flatten(0)
+			if err != nil {
+				return nil, err
+			}
+			return losses.NewBCE().Compute(fa, fb)
 		case "mse":
 			fa, err := a.Flatten(0)
 			if err != nil {
